@@ -252,7 +252,8 @@ def all_rules():
             if w and len(w[0]) == 5 and w[0][:2] in ("md", "pm") and w[0][2:].isdigit():
                 rows.append(w)
         _ALL = rows
-    return [r[0] for r in _ALL]
+    # md999 is the project's debug-only rule (it print()s every token and line); it is not a lint rule
+    return [r[0] for r in _ALL if r[0] != "md999"]
 
 
 def failures_of(p):
